@@ -166,6 +166,93 @@ Definition ok (c : casety) : nat :=
 '''
 
 
+# ---- G5: the control-polygon pre-filter (exact: only comparisons of the input floats)
+OK_G5 = r'''
+From SVP Require Import Model.Bezier Model.Isect.
+(* case: seg1, seg2, did seg1.intersect(seg2) get past the pre-filter (reach its core routine)? *)
+Definition casety : Type := (seg Qc * seg Qc * bool)%type.
+Definition ok (c : casety) : nat :=
+  let '(s1, s2, reached) := c in
+  if Bool.eqb (negb (prefilter_rejects NumQ (bpoints s1) (bpoints s2))) reached then 0 else 1.
+'''
+
+
+class Reached(Exception):
+    pass
+
+
+def reaches_core(s1, s2):
+    """True iff s1.intersect(s2) gets past the control-polygon pre-filter, observed by
+    wrapping the three core routines (bezier_by_line_intersections, bezier_intersections,
+    and np.isclose for the inline Line-Line branch) from the harness"""
+    import numpy, svgpathtools.path as sp
+    def stop(*a, **k):
+        raise Reached()
+    saved = (sp.bezier_by_line_intersections, sp.bezier_intersections, numpy.isclose)
+    try:
+        sp.bezier_by_line_intersections = stop
+        sp.bezier_intersections = stop
+        numpy.isclose = stop
+        try:
+            s1.intersect(s2)
+            return False
+        except Reached:
+            return True
+    finally:
+        sp.bezier_by_line_intersections, sp.bezier_intersections, numpy.isclose = saved
+
+
+def gen_box_touch(rng, per):
+    """Bezier kind pairs whose control-polygon boxes touch exactly on an edge (contact
+    of the curves on that edge; exactly representable coordinates), both operand orders"""
+    out = []
+    for k1 in 'LQC':
+        for k2 in 'LQC':
+            for i in range(per):
+                r = ic.box_touch_pair(rng, k1, k2)
+                if r is None:
+                    continue
+                d1, d2, meta = r
+                out.append((d1, d2, meta))
+    return out
+
+
+def tie_prefilter(rng, K, tmp, touch_pairs, n_random):
+    cases, meta = [], []
+    items = []
+    for d1, d2, m in touch_pairs:
+        items.append((d1, d2, m))
+        # the same pair moved by a tiny exact amount: boxes overlap slightly / are separated slightly
+        eps = m['scale'] * 2.0 ** -30
+        for v in (eps, -eps, 1j * eps, -1j * eps):
+            items.append((d1, ic.shift_desc(d2, v), dict(m, config='box-touch-shifted')))
+    for i in range(n_random):
+        k1, k2 = rng.choice('LQC'), rng.choice('LQC')
+        r = ic.config_pair(rng, k1, k2, rng.choice(['crossing', 'touching', 'disjoint', 'random']))
+        if r:
+            items.append(r)
+    for d1, d2, m in items:
+        if d1 == d2:
+            continue
+        for a, b in ((d1, d2), (d2, d1)):
+            s1, s2 = ic.mkseg(a), ic.mkseg(b)
+            try:
+                reached = reaches_core(s1, s2)
+            except Exception:
+                continue            # assertion etc.: not about the pre-filter
+            cases.append('(%s, %s, %s)' % (ic.seg_term(s1), ic.seg_term(s2), common.coq_bool(reached)))
+            meta.append((a, b, m, reached))
+    fails, errors = common.run_cases(tmp, '', 'casety', OK_G5, cases, shard=400, prefix='g5')
+    for idx, code in fails:
+        a, b, m, reached = meta[idx]
+        K.add('model-prefilter-%s' % ic.KNAME[a[0]],
+              'C11 model tie: %s.intersect(%s): the control-polygon pre-filter %s, the model (inclusive comparisons, '
+              'identical in Line/Quadratic/CubicBezier.intersect) says the opposite (%s)'
+              % (ic.KNAME[a[0]], ic.KNAME[b[0]], 'lets the pair through' if reached else 'rejects the pair', m.get('config')),
+              pair_replay(a, b, m, {'tie': 'prefilter', 'reached_core': reached}), ic.pair_size(ic.mkseg(a), ic.mkseg(b)))
+    return len(cases), errors
+
+
 def outcome(st, val):
     """(kind code, list) of a guarded call"""
     if st == 'ok':
@@ -613,6 +700,8 @@ def run(rep, tier, seed, replay=None):
             else:
                 d1, d2 = ic.desc_unhex(r['seg1']), ic.desc_unhex(r['seg2'])
                 run_pairs(rep, K, tmp, [(d1, d2, {'config': r.get('config', 'replay')})], secs)
+                if r.get('tie') == 'prefilter':
+                    tie_prefilter(rng, K, tmp, [(d1, d2, {'config': r.get('config', 'replay'), 'scale': 0.0})], 0)
             K.flush()
             return
         per = (6 if quick else 40) * boost
@@ -622,22 +711,34 @@ def run(rep, tier, seed, replay=None):
         n2, e2 = tie_bezline(rng, K, tmp, (120 if quick else 1200) * boost)
         n3, e3 = tie_worklist(rng, K, tmp, (24 if quick else 200) * boost, rep)
         pstats, n4, e4 = run_paths(rep, K, tmp, rng, (40 if quick else 400) * boost, secs)
+        # contact exactly on an edge of the control-polygon boxes (drawn last from the rng so
+        # that the streams above are unchanged)
+        touch = gen_box_touch(rng, (4 if quick else 40) * boost)
+        tstats, tnontriv, tq, tb, _ = run_pairs(rep, K, tmp, touch, secs)
+        n5, e5 = tie_prefilter(rng, K, tmp, touch, (60 if quick else 600) * boost)
+        for k_, v_ in tstats.items():
+            stats[k_] = stats.get(k_, 0) + v_
+        nontriv += tnontriv; nq += tq; nb += tb
+        e4 = e4 + e5
         for e in e1 + e2 + e3 + e4:
             rep.violation('C11 model-tie case file failed to evaluate', {'kind': 'cases', 'error': e},
                           found_input=False, key='cases-error')
         K.flush()
-        rep.cov['evaluations'] = 5 * (nq + nb) + n1 + n2 + n3 + n4
-        rep.cov['traces_validated_against_impl'] = n1 + n2 + n3 + n4
+        rep.cov['evaluations'] = 5 * (nq + nb) + n1 + n2 + n3 + n4 + n5
+        rep.cov['traces_validated_against_impl'] = n1 + n2 + n3 + n4 + n5
         rep.cov['distinct_nontrivial'] = nontriv + pstats.get('path_entries', 0)
         rep.cov['rule'] = ('all 16 ordered kind pairs x {crossing (two segments built through a common point), touching '
-                           '(T-junction), disjoint, near-miss (gap 1e-7..1e-3 x size), random}, scales 0.01..1000, arcs circular/'
+                           '(T-junction), disjoint, near-miss (gap 1e-7..1e-3 x size), random}, plus, for the 9 Bezier kind pairs, contact exactly '
+                           'on an edge of the control-polygon boxes (chains, chords through both end points, axis-parallel '
+                           'departures; integer coordinates), scales 0.01..1000, arcs circular/'
                            'elliptic, rotated or not; non-trivial = at least one pair returned by either operand order (paths: '
                            'one returned entry); every returned pair is checked inside Coq: range, squared residual against '
                            '(tol x size)^2 with size = largest distance between defining points, swap symmetry within 1e-4')
         rep.cov['input_distribution'] = dict(stats); rep.cov['paths'] = dict(pstats)
         rep.cov['samples'] = [{'seg1': repr(ic.mkseg(d1)), 'seg2': repr(ic.mkseg(d2)), 'config': m.get('config')}
                               for d1, d2, m in pairs[:3]]
-        rep.cov['model_tie_cases'] = {'line_line': n1, 'bezier_line': n2, 'worklist_quadquad': n3, 'path_T': n4}
+        rep.cov['model_tie_cases'] = {'line_line': n1, 'bezier_line': n2, 'worklist_quadquad': n3, 'path_T': n4,
+                                      'prefilter': n5}
         if info['agree_failed'] and not rep.violations:
             rep.violation('agreement lemma(s) %s no longer check: generated code differs from the model' % info['agree_failed'],
                           {'kind': 'agreement', 'lemmas': info['agree_failed'], 'file': 'coq/GenAgree/Isect.v',
